@@ -375,7 +375,17 @@ func (c *trCtx) rangeRec(x *ast.RangeStmt, elemTy types.Type, m *types.Map, k tr
 			return true
 		})
 	}
-	free := c.freeVars(state, x.X, x.Body)
+	// the loop's own variables are not free in it (they are already named when the loop is translated a second time: a
+	// statement after an `if` with a return is continued inside both branches)
+	except := append([]types.Object{}, state...)
+	for _, kv := range []ast.Expr{x.Key, x.Value} {
+		if id, ok := kv.(*ast.Ident); ok {
+			if o := c.info().Defs[id]; o != nil {
+				except = append(except, o)
+			}
+		}
+	}
+	free := c.freeVars(except, x.X, x.Body)
 	c.nloop++
 	name := c.fn.leanName + ".range" + itoa(c.nloop)
 	tuple, ttyp := c.tupleOf(state)
